@@ -4,6 +4,7 @@ import (
 	"context"
 	"fmt"
 	"os"
+	"sort"
 	"strings"
 	"time"
 
@@ -36,6 +37,8 @@ type Engine struct {
 	reached       map[string]int
 	maxConc       map[int]int
 	families      map[string]int
+	multiWait     int
+	degraded      []string // reasons why the tie itself no longer covers what it claims
 }
 
 func NewEngine(e *hk.Env) *Engine {
@@ -75,7 +78,7 @@ func (en *Engine) Finish(family string, r *Run) {
 			en.violsByFamily[family]++
 			en.E.Case("VIOL", r.Name, v, "::", "unrecorded")
 		}
-		if r.stuck {
+		if r.stuck.Load() {
 			en.aborted = true
 		}
 		return
@@ -83,7 +86,7 @@ func (en *Engine) Finish(family string, r *Run) {
 	h := r.History()
 	nev := r.Events()
 	tag := "M"
-	if nev <= en.MaxAcceptEvents && r.N <= en.MaxAcceptLanes {
+	if (nev <= en.MaxAcceptEvents && r.N <= en.MaxAcceptLanes) || (nev <= 40 && r.N <= 4) {
 		tag = "H"
 		if nev <= 26 && r.N <= 2 {
 			tag = "HS"
@@ -105,7 +108,7 @@ func (en *Engine) Finish(family string, r *Run) {
 	if len(viols) == 0 && en.E.Rng != nil {
 		en.E.Sample("samples", map[string]string{"scenario": r.Name, "history": tag + " " + h}, 6)
 	}
-	if r.stuck {
+	if r.stuck.Load() {
 		// goroutines of this lane may still be alive: later dumps would blame the wrong run
 		en.aborted = true
 	}
@@ -116,7 +119,9 @@ func (en *Engine) WriteStats() {
 	s["scenarios"] = en.scenarios
 	s["scenarios_by_family"] = en.families
 	s["histories_by_tag"] = en.histories
-	s["cases"] = en.histories["H"] + en.histories["HS"] + en.histories["M"]
+	// cases = histories validated against the model (monitors + acceptor); the monitor-only ones are counted apart
+	s["cases"] = en.histories["H"] + en.histories["HS"]
+	s["histories_monitor_only"] = en.histories["M"]
 	s["events"] = en.events
 	s["park_points_reached"] = en.reached
 	s["park_points_unreached"] = en.unreached
@@ -126,6 +131,40 @@ func (en *Engine) WriteStats() {
 	s["done_sites_as_expected"] = en.ST.Expected()
 	s["violations_by_family"] = en.violsByFamily
 	s["aborted_after_stuck_goroutines"] = en.aborted
+	s["shutdowns_with_concurrent_wait_callers"] = en.multiWait
+}
+
+// knownDead: park labels that the current code never reaches by construction (PushTask does not call the
+// context a third / fourth time while it is live).
+var knownDead = map[string]bool{"pushhook/call2": true, "pushhook/call3": true}
+
+// Degraded lists the reasons why this run's tie is weaker than it claims: the context call sites are not the
+// expected ones, a class of park points was never reached, or a family did not achieve its set-up. The caller
+// turns a non-empty list into a harness error (reported by the runner as "no failing input found": it is the
+// correspondence that no longer checks, not the property). Not judged when a violation aborted the run.
+func (en *Engine) Degraded() []string {
+	d := append([]string(nil), en.degraded...)
+	nv := 0
+	for _, v := range en.violsByFamily {
+		nv += v
+	}
+	if en.aborted || nv > 0 || en.Only != "" {
+		return nil
+	}
+	if !en.ST.Expected() {
+		q, w, p := en.ST.Counts()
+		d = append(d, fmt.Sprintf("context call sites reached on a live context: startQueue=%d startWorker=%d PushTask=%d, expected 3/2/2 (the park points mean something else now)", q, w, p))
+	}
+	if n := en.ST.Drift(); n > 0 {
+		d = append(d, fmt.Sprintf("%d context calls on a live context from lines the calibration run never reached", n))
+	}
+	for label, miss := range en.unreached {
+		if en.reached[label] == 0 && !knownDead[label] {
+			d = append(d, fmt.Sprintf("park point %s never reached (%d attempts)", label, miss))
+		}
+	}
+	sort.Strings(d)
+	return d
 }
 
 // ---------------------------------------------------------------- common endings
@@ -155,18 +194,23 @@ func (en *Engine) Shutdown(r *Run, cancelled bool) {
 		r.G.Open()
 	}
 	if !r.AwaitCalls(LiveBound) {
-		r.stuck = true
+		r.stuck.Store(true)
 		r.Violation("producer-not-released-after-cancel within %v", LiveBound)
 	}
-	if !r.Wait(LiveBound) {
-		r.Violation("wait-did-not-return within %v after cancel and release of all running tasks (lane goroutines alive: %d)", LiveBound, LaneGoroutines())
+	waiters := 1
+	if en.Rng.Chance(25) {
+		waiters = 2 + en.Rng.Intn(3) // several goroutines inside Wait() at once
+		en.multiWait++
+	}
+	if !r.WaitMany(waiters, LiveBound) {
+		r.Violation("wait-did-not-return within %v after cancel and release of all running tasks (callers of Wait: %d, lane goroutines alive: %d)", LiveBound, waiters, LaneGoroutines())
 		return
 	}
 	r.Leaks()
 	late2 := r.NewTask(false, 0, false)
 	r.Push(late2, en.Rng.Intn(r.N))
-	if en.Rng.Chance(30) {
-		r.Status() // Status() is legal at any time, also after Wait
+	if en.Rng.Chance(70) {
+		r.Status() // Status() is legal at any time, also after Wait (monitor: pending = accepted - started)
 	}
 	time.Sleep(200 * time.Microsecond) // room for a (wrong) late Start() to show up in the history
 }
@@ -227,7 +271,7 @@ func (en *Engine) Calibrate() {
 	en.E.Case("HS", r.History())
 	en.histories["HS"]++
 	en.events += r.Events()
-	if r.stuck {
+	if r.stuck.Load() {
 		en.aborted = true
 		en.E.Case("VIOL", "calibrate", "wait-did-not-return-or-goroutines-left", "::", r.History())
 	}
